@@ -47,6 +47,11 @@ package rules
 // .newBalancer); publishing helpers summarised (setServers(list) / useStaticServers()); a stored
 // balancer that is a setter's parameter judged at the setter's call sites; the registry behind an
 // unexported interface; loaders that get the balancer from another loader.
+// Fourth iteration: the policy dispatch written as early-return ifs on the policy with a final
+// default return (c04PolicyIfChain); the weighted walk written with a callback iterator
+// (eachServer(list, visit): c04WeightedVisitor judges the visitor literal as the loop body, the
+// element-of rule binds the visitor's parameter to the elements the plain iterator passes); an
+// iterator the rule does not recognise as plain is undecided, not violated.
 //
 // Tested on the tree this was developed against (scratch worktree @ ce8b88e): exit 1 with
 // exactly one violation,
@@ -360,6 +365,29 @@ func c04Resolve(c *core.Ctx) *c04Info {
 			if impl != nil {
 				info.byPolicy[p] = impl
 				impl.policies = append(impl.policies, p)
+			}
+		}
+	}
+	// an if-chain / table names only some policies; the others are served by the "<other>" case
+	for _, pc := range cases {
+		if pc.label != "<other>" || len(pc.set.types) != 1 {
+			continue
+		}
+		for _, t := range pc.set.types {
+			if pt, ok := t.(*types.Pointer); ok {
+				t = pt.Elem()
+			}
+			for _, im := range info.impls {
+				if !types.Identical(t, im.named) {
+					continue
+				}
+				for _, p := range []string{"roundRobin", "random", "weightedRandom", "ipHash", "headerHash"} {
+					if info.byPolicy[p] == nil && !ambiguous[p] && len(info.policyImpls[p]) == 0 {
+						info.byPolicy[p] = im
+						info.policyImpls[p] = append(info.policyImpls[p], im)
+						im.policies = append(im.policies, p)
+					}
+				}
 			}
 		}
 	}
